@@ -150,6 +150,45 @@ fn cb(mgr: &mut Mgr, n: usize) -> Result<Vec<f32>, Failure> {
 	Ok(c.out)
 }
 
+/// An effect (any of the eight, with nested feedback effects) that has only ever processed silence
+/// and then lives through a device-rate change must behave exactly like a fresh one at the new
+/// rate: whatever it derived from the old rate (delay lengths, filter coefficients, comb tunings,
+/// time constants) has to follow the change, at every depth of nesting.
+fn silent_history(spec: &crate::scene::fx::FxSpec, r1: u32, r2: u32, ibs: usize, sig: &crate::scene::signal::SigSpec) -> Result<(), Failure> {
+	use crate::props::c13::process_with;
+	let info = kira::info::MockInfoBuilder::new().build();
+	let zeros = vec![Frame::ZERO; ibs * 3];
+	let part = |n: usize| -> Vec<usize> {
+		let mut v = vec![];
+		let mut left = n;
+		while left > 0 {
+			let k = left.min(ibs);
+			v.push(k);
+			left -= k;
+		}
+		v
+	};
+	let n = 1500;
+	let input = crate::scene::signal::render_sig(sig, n);
+	// A: old rate, silence, change, signal
+	let (mut a, _ha) = crate::scene::fx::build(spec);
+	a.init(r1, ibs);
+	let _ = process_with(&mut a, r1, &zeros, &part(zeros.len()), &info);
+	a.on_change_sample_rate(r2);
+	let out_a = process_with(&mut a, r2, &input, &part(n), &info);
+	// B: new rate from the start
+	let (mut b, _hb) = crate::scene::fx::build(spec);
+	b.init(r2, ibs);
+	let _ = process_with(&mut b, r2, &zeros, &part(zeros.len()), &info);
+	let out_b = process_with(&mut b, r2, &input, &part(n), &info);
+	for i in 0..n {
+		let (x, y) = (out_a[i], out_b[i]);
+		let same = |p: f32, q: f32| p == q || (p.is_nan() && q.is_nan()) || (p - q).abs() <= 1e-6 * p.abs().max(q.abs()).max(1.0);
+		ensure!(same(x.left, y.left) && same(x.right, y.right), "effect-follows-the-rate-change", "frame {i}: an effect that saw only silence at {r1} Hz and was then told {r2} Hz gives {x:?}, a fresh one at {r2} Hz gives {y:?}; {spec:?} (internal buffer {ibs})");
+	}
+	Ok(())
+}
+
 fn sec_case(c: &SecCase) -> Result<(), Failure> {
 	let mut mgr = manager(c.rate1, c.ibs, Capacities::default(), MainTrackBuilder::new());
 	match c.kind {
@@ -318,7 +357,7 @@ impl Property for C16 {
 		"C16"
 	}
 	fn rule(&self) -> &'static str {
-		"two kinds of cases. (1) Histories: tracks (children of the manager or of any track), send tracks and the main track carry probe effects; tracks are added and dropped, the device rate changes (any rate 8k..192k) and callbacks of arbitrary sizes run in any order; at every process call of every probe effect dt must be the period of the rate in force and the rate last announced to the effect (init / on_change_sample_rate) must be that rate. (2) Seconds and hertz: with a rate change after a generated number of callbacks, an index-coded sound must be heard at source frame t x its own rate (1.5 frames) and end after its duration (one callback), a clock must show speed x seconds (1e-9) and a volume tween must end after its duration (one callback), a delay must return an impulse after delay_time x the new rate frames exactly, and a low-pass filter must keep its -6.02 dB corner gain (0.2 dB) at both rates. Non-trivial = a rate change while a track is queued or playing (histories), or rate1 != rate2 (seconds cases); distinct = distinct decoded choices."
+		"three kinds of cases. (1) Histories: tracks (children of the manager or of any track), send tracks and the main track carry probe effects; tracks are added and dropped, the device rate changes (any rate 8k..192k) and callbacks of arbitrary sizes run in any order; at every process call of every probe effect dt must be the period of the rate in force and the rate last announced to the effect (init / on_change_sample_rate) must be that rate. (2) Seconds and hertz: with a rate change after a generated number of callbacks, an index-coded sound must be heard at source frame t x its own rate (1.5 frames) and end after its duration (one callback), a clock must show speed x seconds (1e-9) and a volume tween must end after its duration (one callback), a delay must return an impulse after delay_time x the new rate frames exactly, and a low-pass filter must keep its -6.02 dB corner gain (0.2 dB) at both rates. (3) Silent history: any of the eight built-in effects (generated parameters, feedback effects nested in delays) that has only processed silence at one rate and is then told another must produce the same output (1e-6 relative) as a fresh instance at the new rate. Non-trivial = a rate change while a track is queued or playing (histories), or rate1 != rate2 (seconds cases); distinct = distinct decoded choices."
 	}
 	fn assumptions(&self) -> Vec<String> {
 		vec![
@@ -384,6 +423,15 @@ impl Property for C16 {
 				classes.push("change-while-queued");
 			}
 			Ok(CaseInfo::new(&src, changes > 0 && n_tracks > 0, classes))
+		} else if src.chance(1, 3) {
+			let (r1, r2) = (gen_rate(&mut src), gen_rate(&mut src));
+			let ibs = src.pick(&[128usize, 64, 16, 256, 100]);
+			let spec = crate::scene::fx::gen_fx(&mut src, ctx, crate::scene::fx::Domain::Documented, r1.min(r2), 0);
+			let sig = crate::scene::signal::gen_sig(&mut src, false);
+			ctx.describe(|| format!("silent history {r1} -> {r2} Hz, internal buffer {ibs}, {spec:?}, {sig:?}"));
+			silent_history(&spec, r1, r2, ibs, &sig)?;
+			let nested = matches!(&spec, crate::scene::fx::FxSpec::Delay { inner, .. } if !inner.is_empty());
+			Ok(CaseInfo::new(&src, r1 != r2, if nested { vec!["effect-after-silent-history", "nested-feedback-effects"] } else { vec!["effect-after-silent-history"] }))
 		} else {
 			let case = SecCase {
 				kind: src.index(4),
